@@ -2,7 +2,7 @@
    Metropolis one, for bonds of unequal maximum weight. *)
 From Coq Require Import List QArith ZArith NArith Bool Arith.
 From QmcV Require Import Model.Prog Model.Sse Model.Diagonal Proofs.ProgLemmas Proofs.DiagonalProofs Proofs.SseWeight
-     Proofs.WorldLine Proofs.Expect Proofs.SweepStationary Proofs.GroupKernel Proofs.TimestepStationary.
+     Proofs.WorldLine Proofs.Expect Proofs.SweepStationary Proofs.GroupKernel Proofs.TimestepStationary Model.Ham Check.Common Proofs.ValidatedPipeline.
 Import ListNotations.
 Open Scope Q_scope.
 
@@ -103,3 +103,11 @@ Theorem C02_heatbath_timestep_stationary : forall H beta L nv xs,
     == Qsum (map (fun x => sse_weight H beta (snd x) * f x) xs).
 Proof. exact heatbath_timestep_stationary. Qed.
 Print Assumptions C02_heatbath_timestep_stationary.
+
+(* unconditional: heat-bath pipeline of every Ising model without longitudinal field, complete configuration space *)
+Theorem C02_ising_heatbath_pipeline_stationary : forall g beta L,
+  has_long g = false -> 0 < beta ->
+  wstat (canon (ising_ham g) (all_substates (i_nvars g)) L) (fun c => sse_weight (ising_ham g) beta (snd c))
+        (pipeline_cfg_v (update_cfg (hb_update (ising_ham g) (bond_weights (ising_ham g)) beta))).
+Proof. exact ising_heatbath_pipeline_stationary. Qed.
+Print Assumptions C02_ising_heatbath_pipeline_stationary.
